@@ -2,6 +2,7 @@ import PprofVerif.Base.Tok
 import PprofVerif.Model.Stacks
 import PprofVerif.Spec.Stacks
 import PprofVerif.Spec.StacksAggregate
+import PprofVerif.Model.StacksSelect
 /- Driver operations for C17 (flame-graph stack set).
    `stacks.model <idx> <profile>`  → `ok <stackset>` | `err` | `panic`, the raw (index based) dump of
         the model's StackSet; the harness canonicalises it with the same function it uses for the
@@ -37,6 +38,11 @@ def rdFlagsProfile : Rd (Spec.AggFlags × Profile) := do
   let p ← Rd.profile
   pure ({ none := a, inlines := b, function := c, filename := d, linenumber := e, columns := g }, p)
 
+def rdSelProfile : Rd (Str × Profile) := do
+  let s ← Rd.str
+  let p ← Rd.profile
+  pure (s, p)
+
 def rdIdxProfile : Rd (Nat × Profile) := do
   let i ← Rd.nat
   let p ← Rd.profile
@@ -58,6 +64,22 @@ def ops : List (String × (List String → String)) := [
       match Spec.resolve p i with
       | some rs => "ok " ++ Wr.render (Wr.list (fun (x : Int × List Frame) => Wr.int x.1 ++ Wr.list wFrame x.2) rs)
       | none => "none"),
+  ("stacks.select", fun ts =>
+    match Rd.run rdSelProfile ts with
+    | none => "bad-op"
+    | some (sel, p) =>
+      match selectIndex p sel with
+      | .ok i => "ok " ++ toString i
+      | .err _ => "err"
+      | .panic _ => "panic"),
+  ("stacks.modelsel", fun ts =>
+    match Rd.run rdSelProfile ts with
+    | none => "bad-op"
+    | some (sel, p) =>
+      match stacksBySel p sel with
+      | .ok s => "ok " ++ Wr.render (wStackSet s)
+      | .err _ => "err"
+      | .panic _ => "panic"),
   ("stacks.aggregate", fun ts =>
     match Rd.run rdFlagsProfile ts with
     | none => "bad-op"
